@@ -468,3 +468,74 @@ def chord_spec(s):
     if rest not in SHORTHAND_STEPS:
         return ("FormatError", None)
     return ("ok", chord_of(root, rest))
+
+
+# ------------------------------------------------------------------ scales
+
+@primitive
+def is_periodic(l, p, n):
+    """l is its first p elements repeated n times followed by its first element (n >= 1)"""
+    return n >= 1 and list(l) == list(l[:p]) * n + [l[0]]
+
+
+def step(a, b):
+    """semitones from name a up to name b"""
+    return (pc(b) - pc(a)) % 12
+
+
+SCALE_PATTERN = {
+    "Ionian": [2, 2, 1, 2, 2, 2, 1], "Dorian": [2, 1, 2, 2, 2, 1, 2], "Phrygian": [1, 2, 2, 2, 1, 2, 2],
+    "Lydian": [2, 2, 2, 1, 2, 2, 1], "Mixolydian": [2, 2, 1, 2, 2, 1, 2], "Aeolian": [2, 1, 2, 2, 1, 2, 2],
+    "Locrian": [1, 2, 2, 1, 2, 2, 2],
+    "Major": [2, 2, 1, 2, 2, 2, 1], "HarmonicMajor": [2, 2, 1, 2, 1, 3, 1],
+    "NaturalMinor": [2, 1, 2, 2, 1, 2, 2], "HarmonicMinor": [2, 1, 2, 2, 1, 3, 1],
+    "MelodicMinor": [2, 1, 2, 2, 2, 2, 1], "Bachian": [2, 1, 2, 2, 2, 2, 1],
+    "MinorNeapolitan": [1, 2, 2, 2, 1, 3, 1],
+    "WholeTone": [2, 2, 2, 2, 2, 2], "Octatonic": [2, 1, 2, 1, 2, 1, 2, 1],
+    "Chromatic": [1] * 12,
+}
+
+
+def _alter(name, d):
+    """name moved by d semitones on the same letter (cancelling opposite accidentals, as musicians spell it)"""
+    n = name[1:].count("#") - name[1:].count("b") + d
+    return name[0] + ("#" * n if n > 0 else "b" * (-n))
+
+
+@primitive
+def scale_sets(tonic_major, tonic_minor):
+    """{scale name: (ascending note set, descending note set)} for one key pair, from the step patterns"""
+    out = {}
+    maj = key_notes(tonic_major)
+    out[tonic_major + " major"] = (set(maj), set(maj))
+    hm = list(maj)
+    hm[5] = _alter(hm[5], -1)
+    out[tonic_major + " harmonic major"] = (set(hm), set(hm))
+    t = tonic_minor[0].upper() + tonic_minor[1:]
+    nat = key_notes(tonic_minor)
+    out[t + " natural minor"] = (set(nat), set(nat))
+    har = list(nat)
+    har[6] = _alter(har[6], 1)
+    out[t + " harmonic minor"] = (set(har), set(har))
+    mel = list(har)
+    mel[5] = _alter(mel[5], 1)
+    out[t + " melodic minor"] = (set(mel), set(nat))
+    out[t + " Bachian"] = (set(mel), set(mel))
+    nea = list(har)
+    nea[1] = _alter(nea[1], -1)
+    nead = list(nat)
+    nead[1] = _alter(nead[1], -1)
+    out[t + " minor Neapolitan"] = (set(nea), set(nead))
+    return out
+
+
+@primitive
+def scale_determine_spec(notes):
+    """sorted names of the major/minor-family scales (15 key pairs) whose ascending or descending set holds all notes"""
+    want = set(notes)
+    res = []
+    for n in range(-7, 8):
+        for name, (asc, desc) in scale_sets(key_of_signature(n, False), key_of_signature(n, True)).items():
+            if want <= asc or want <= desc:
+                res.append(name)
+    return sorted(res)
